@@ -1,3 +1,250 @@
-from .regen import TranslatorError
+"""ast -> lean/Sio/Generated/Forward.lean: the delegation table of the helper methods of the four
+class-based namespace classes (C17), plus the signatures of the methods they delegate to.
+
+Nothing is imported or executed.  For each (class, helper) the method is looked up in the class body
+and then in its base classes (as attribute lookup would), its body must be
+`[docstring] return [await] self.<server|client>.<method>(<args>)`, and every argument expression
+is classified:
+
+    param p      a bare name that is a parameter of the helper
+    nsOrSelf     exactly `namespace or self.namespace`
+    const src    a literal constant
+    opaque src   anything else (the translator does not understand it; never faithful)
+
+The target method is looked up the same way in the class the namespace class is registered with
+(Namespace -> Server, AsyncNamespace -> AsyncServer, ClientNamespace -> Client,
+AsyncClientNamespace -> AsyncClient).  A helper or target that cannot be found, or a body of
+another shape, gives a row with `bodyOk := false` / `targetFound := false` (never faithful) rather
+than an error, so that the check can execute the real helper and report what it actually does.
+"""
+import ast
+import os
+
+from .regen import TranslatorError, lean_str, lean_list
+
+SERVER_HELPERS = ['emit', 'send', 'call', 'enter_room', 'leave_room', 'close_room', 'rooms',
+                  'get_session', 'save_session', 'session', 'disconnect']
+CLIENT_HELPERS = ['emit', 'send', 'call', 'disconnect']
+
+# (namespace class, file, helpers, attribute holding the peer, target class, target file)
+CLASSES = [
+    ('Namespace', 'namespace.py', SERVER_HELPERS, 'server', 'Server', 'server.py'),
+    ('AsyncNamespace', 'async_namespace.py', SERVER_HELPERS, 'server', 'AsyncServer', 'async_server.py'),
+    ('ClientNamespace', 'namespace.py', CLIENT_HELPERS, 'client', 'Client', 'client.py'),
+    ('AsyncClientNamespace', 'async_namespace.py', CLIENT_HELPERS, 'client', 'AsyncClient',
+     'async_client.py'),
+]
+
+_cache = {}
+
+
+def _parse(repo, fname):
+    key = (repo, fname)
+    if key not in _cache:
+        path = os.path.join(repo, 'src', 'socketio', fname)
+        try:
+            with open(path, encoding='utf-8') as f:
+                _cache[key] = ast.parse(f.read(), path)
+        except (OSError, SyntaxError) as e:
+            raise TranslatorError('cannot parse %s: %s' % (path, e))
+    return _cache[key]
+
+
+def _imports(tree):
+    """local module aliases: name -> file (`from . import base_namespace`, `from socketio import x`)"""
+    out = {}
+    for node in tree.body:
+        if isinstance(node, ast.ImportFrom) and (node.level == 1 and node.module is None
+                                                 or node.level == 0 and node.module == 'socketio'):
+            for a in node.names:
+                out[a.asname or a.name] = a.name + '.py'
+    return out
+
+
+def _find_class(tree, name):
+    for node in tree.body:
+        if isinstance(node, ast.ClassDef) and node.name == name:
+            return node
+    return None
+
+
+def find_method(repo, fname, cname, mname, depth=0):
+    """-> (FunctionDef | AsyncFunctionDef, 'file:Class') or (None, None); own body first (last
+    definition wins), then the bases left to right."""
+    if depth > 8 or not os.path.exists(os.path.join(repo, 'src', 'socketio', fname)):
+        return None, None
+    tree = _parse(repo, fname)
+    cls = _find_class(tree, cname)
+    if cls is None:
+        return None, None
+    found = None
+    for st in cls.body:
+        if isinstance(st, (ast.FunctionDef, ast.AsyncFunctionDef)) and st.name == mname:
+            found = st
+    if found is not None:
+        return found, '%s:%s' % (fname, cname)
+    imps = _imports(tree)
+    for b in cls.bases:
+        if isinstance(b, ast.Attribute) and isinstance(b.value, ast.Name) and b.value.id in imps:
+            r = find_method(repo, imps[b.value.id], b.attr, mname, depth + 1)
+        elif isinstance(b, ast.Name):
+            r = find_method(repo, fname, b.id, mname, depth + 1)
+        else:
+            continue
+        if r[0] is not None:
+            return r
+    return None, None
+
+
+def signature(fn):
+    """-> ([(name, has_default)], exotic) for the parameters after `self`."""
+    a = fn.args
+    exotic = bool(a.posonlyargs or a.kwonlyargs or a.vararg or a.kwarg or fn.decorator_list)
+    names = [x.arg for x in a.args]
+    ndef = len(a.defaults)
+    params = [(n, i >= len(names) - ndef) for i, n in enumerate(names)]
+    if not params or params[0][0] != 'self':
+        return params, True
+    return params[1:], exotic
+
+
+def classify(e, params):
+    if isinstance(e, ast.Name) and e.id in params:
+        return ('param', e.id)
+    if isinstance(e, ast.BoolOp) and isinstance(e.op, ast.Or) and len(e.values) == 2:
+        l, r = e.values
+        if isinstance(l, ast.Name) and l.id == 'namespace' and 'namespace' in params and \
+                isinstance(r, ast.Attribute) and r.attr == 'namespace' and \
+                isinstance(r.value, ast.Name) and r.value.id == 'self':
+            return ('nsOrSelf', None)
+    if isinstance(e, ast.Constant) and not isinstance(e.value, (bytes, type(Ellipsis))):
+        return ('const', repr(e.value))
+    return ('opaque', ast.unparse(e))
+
+
+def translate_helper(repo, cname, fname, helper, peer_attr, tcls, tfile):
+    row = {'cls': cname, 'helper': helper, 'where': None, 'isAsync': False, 'params': [], 'exotic': False,
+           'bodyOk': False, 'returned': False, 'awaited': False, 'targetObj': '', 'targetMethod': '',
+           'targetFound': False, 'targetAsync': False, 'targetParams': [], 'targetExotic': False,
+           'call': [], 'src': ''}
+    fn, where = find_method(repo, fname, cname, helper)
+    if fn is None:
+        row['src'] = '<helper not found>'
+        return row
+    row['where'] = where
+    row['isAsync'] = isinstance(fn, ast.AsyncFunctionDef)
+    row['params'], row['exotic'] = signature(fn)
+    pnames = [p for p, _ in row['params']]
+    body = list(fn.body)
+    if body and isinstance(body[0], ast.Expr) and isinstance(body[0].value, ast.Constant) and \
+            isinstance(body[0].value.value, str):
+        body = body[1:]
+    row['src'] = ' ; '.join(ast.unparse(s) for s in body)
+    call = None
+    if len(body) == 1 and isinstance(body[0], (ast.Return, ast.Expr)) and body[0].value is not None:
+        row['returned'] = isinstance(body[0], ast.Return)
+        v = body[0].value
+        if isinstance(v, ast.Await):
+            row['awaited'] = True
+            v = v.value
+        if isinstance(v, ast.Call):
+            call = v
+    if call is not None:
+        f = call.func
+        if isinstance(f, ast.Attribute) and isinstance(f.value, ast.Attribute) and \
+                isinstance(f.value.value, ast.Name) and f.value.value.id == 'self':
+            row['bodyOk'] = True
+            row['targetObj'] = f.value.attr
+            row['targetMethod'] = f.attr
+            for i, a in enumerate(call.args):
+                if isinstance(a, ast.Starred):
+                    row['call'].append((('starArgs', None), ('opaque', ast.unparse(a))))
+                else:
+                    row['call'].append((('pos', i), classify(a, pnames)))
+            for k in call.keywords:
+                if k.arg is None:
+                    row['call'].append((('starKwargs', None), ('opaque', ast.unparse(k.value))))
+                else:
+                    row['call'].append((('kw', k.arg), classify(k.value, pnames)))
+    # the method of the peer class that the (recognised) call names; by default the same-named one
+    tname = row['targetMethod'] if row['bodyOk'] and row['targetObj'] == peer_attr else helper
+    tfn, _ = find_method(repo, tfile, tcls, tname)
+    if tfn is not None:
+        row['targetFound'] = True
+        row['targetAsync'] = isinstance(tfn, ast.AsyncFunctionDef)
+        row['targetParams'], row['targetExotic'] = signature(tfn)
+    return row
+
+
+def rows(repo):
+    _cache.clear()
+    out = []
+    for cname, fname, helpers, peer, tcls, tfile in CLASSES:
+        for h in helpers:
+            out.append(translate_helper(repo, cname, fname, h, peer, tcls, tfile))
+    return out
+
+
+def _b(x):
+    return 'true' if x else 'false'
+
+
+def _params(ps):
+    return lean_list(['⟨%s, %s⟩' % (lean_str(n), _b(d)) for n, d in ps])
+
+
+def _binder(b):
+    k, v = b
+    if k == 'pos':
+        return '.pos %d' % v
+    if k == 'kw':
+        return '.kw %s' % lean_str(v)
+    return '.' + k
+
+
+def _expr(e):
+    k, v = e
+    if k == 'nsOrSelf':
+        return '.nsOrSelf'
+    return '.%s %s' % (k, lean_str(v))
+
+
+def _comment(s):
+    return s.replace('-/', '- /').replace('/-', '/ -').replace('\n', ' ')
+
+
 def generate(repo):
-    raise TranslatorError('not yet')
+    lines = ['/- GENERATED by harness/translate_forward.py from src/socketio/{namespace,async_namespace,',
+             '   base_namespace}.py (helpers) and {server,async_server,base_server,client,async_client,',
+             '   base_client}.py (targets).  Regenerated on every check run; do not edit. -/',
+             'import Sio.Model.Forward',
+             'namespace Sio.Generated',
+             'open Sio.Forward', '']
+    names = []
+    for i, r in enumerate(rows(repo)):
+        name = 'row_%s_%s' % (r['cls'], r['helper'])
+        names.append(name)
+        lines.append('/-- `%s.%s` (%s): `%s` -/' % (r['cls'], r['helper'], r['where'] or 'not found',
+                                                    _comment(r['src'])[:400]))
+        lines.append('def %s : Row where' % name)
+        lines.append('  cls := %s' % lean_str(r['cls']))
+        lines.append('  helper := %s' % lean_str(r['helper']))
+        lines.append('  isAsync := %s' % _b(r['isAsync']))
+        lines.append('  params := %s' % _params(r['params']))
+        lines.append('  exotic := %s' % _b(r['exotic']))
+        lines.append('  bodyOk := %s' % _b(r['bodyOk']))
+        lines.append('  returned := %s' % _b(r['returned']))
+        lines.append('  awaited := %s' % _b(r['awaited']))
+        lines.append('  targetObj := %s' % lean_str(r['targetObj']))
+        lines.append('  targetMethod := %s' % lean_str(r['targetMethod']))
+        lines.append('  targetFound := %s' % _b(r['targetFound']))
+        lines.append('  targetAsync := %s' % _b(r['targetAsync']))
+        lines.append('  targetParams := %s' % _params(r['targetParams']))
+        lines.append('  targetExotic := %s' % _b(r['targetExotic']))
+        lines.append('  call := %s' % lean_list(['(%s, %s)' % (_binder(b), _expr(e)) for b, e in r['call']]))
+        lines.append('')
+    lines.append('def forwardTable : List Row :=')
+    lines.append('  ' + lean_list(names))
+    lines.append('')
+    lines.append('end Sio.Generated')
+    return '\n'.join(lines) + '\n'
